@@ -101,7 +101,26 @@ func runOne(t *testing.T, prop, tier string, base uint64, index int, tapes *Tape
 	}()
 	if simrt.RaceBuild {
 		if txt := raceLogSince(raceMark); strings.Contains(txt, "WARNING: DATA RACE") {
-			res.Race = txt
+			// a scenario may limit the reports it answers for to the code its property is
+			// about; other reports in gate code are counted as observations
+			var in []string
+			for _, rep := range strings.Split(txt, "==================\n==================") {
+				ok := len(sc.RaceScope) == 0
+				for _, sub := range sc.RaceScope {
+					if strings.Contains(rep, sub) {
+						ok = true
+					}
+				}
+				if ok {
+					in = append(in, rep)
+				} else {
+					if res.Probes == nil {
+						res.Probes = map[string]int{}
+					}
+					res.Probes["race_report_outside_property_scope"]++
+				}
+			}
+			res.Race = strings.Join(in, "==================\n==================")
 		}
 	}
 	if tapes == nil && (res.Viol != nil || res.Harness != "" || res.Race != "") {
